@@ -20,7 +20,6 @@ pub fn roundtrip_body(base: &str, d: usize) {
     let t = mk_type(base, d, &n);
     let o = observe(&t, d);
     let wrong_depth = if d > 0 { observe(&t, d - 1).is_some() } else { false };
-    kani::cover!(true, "witness: end of harness reached");
     std::mem::forget(t);
     let ok = match o {
         Some(o) => {
@@ -65,7 +64,6 @@ pub fn intersect_body(base_a: &str, base_b: &str, same_base: bool, da: usize, db
             }
         },
     };
-    kani::cover!(true, "witness: end of harness reached");
     kani::cover!(got_some, "witness: intersection exists");
     kani::cover!(!got_some, "witness: intersection does not exist");
     std::mem::forget(x);
@@ -81,7 +79,6 @@ pub fn subtype_body(base_a: &str, base_b: &str, same_base: bool, da: usize, db: 
     let b = mk_type(base_b, db, &nb);
     let got = a.verif_is_scalar_only_subtype(&b);
     let exp = ref_subtype(same_base, da, &na, db, &nb);
-    kani::cover!(true, "witness: end of harness reached");
     kani::cover!(exp, "witness: is a subtype");
     kani::cover!(!exp, "witness: is not a subtype");
     forget2(a, b);
@@ -94,7 +91,6 @@ pub fn eqign_body(base_a: &str, base_b: &str, same_base: bool, da: usize, db: us
     let a = mk_type(base_a, da, &na);
     let b = mk_type(base_b, db, &nb);
     let got = a.verif_equal_ignoring_nullability(&b);
-    kani::cover!(true, "witness: end of harness reached");
     forget2(a, b);
     assert!(got == (same_base && da == db), "equal ignoring nullability iff same base and same depth");
 }
@@ -115,7 +111,6 @@ pub fn greatest_body(base: &str, d: usize) {
             below && (!common || x.verif_is_scalar_only_subtype(&c))
         }
     };
-    kani::cover!(true, "witness: end of harness reached");
     std::mem::forget(x);
     forget2(a, b);
     std::mem::forget(c);
@@ -141,7 +136,6 @@ pub fn order_laws_body(base: &str, d: usize) {
         }
         i += 1;
     }
-    kani::cover!(true, "witness: end of harness reached");
     kani::cover!(ab && bc && !same, "witness: strict chain a > b >= c");
     forget2(a, b);
     std::mem::forget(c);
@@ -159,7 +153,6 @@ pub fn upcast_body(base: Base, d: usize, v: FieldValue) {
     let is_sub = sup.verif_is_scalar_only_subtype(&sub);
     let v_sub = sub.is_valid_value(&v);
     let v_sup = sup.is_valid_value(&v);
-    kani::cover!(true, "witness: end of harness reached");
     kani::cover!(is_sub && v_sub, "witness: value of a proper subtype");
     std::mem::forget(v);
     forget2(sub, sup);
@@ -174,7 +167,6 @@ pub fn with_nullability_body(base: &str, d: usize) {
     let u = t.with_nullability(want);
     let o = observe(&u, d);
     let orig = observe(&t, d);
-    kani::cover!(true, "witness: end of harness reached");
     forget2(t, u);
     let ok = match (o, orig) {
         (Some(o), Some(orig)) => {
@@ -191,16 +183,6 @@ pub fn with_nullability_body(base: &str, d: usize) {
         _ => false,
     };
     assert!(ok, "with_nullability sets the outer level, keeps inner levels and the original");
-}
-
-macro_rules! h {
-    ($name:ident, $unw:expr, $body:ident ( $($arg:expr),* )) => {
-        #[kani::proof]
-        #[kani::unwind($unw)]
-        pub fn $name() {
-            $body($($arg),*);
-        }
-    };
 }
 
 include!("gen_c17.rs");
